@@ -462,25 +462,35 @@ def run_verus_unit(path, scratch, logdir):
     rc, out, wall, _ = run_cmd(["verus", gen, "--output-json", "--time", "--crate-type=lib"], logdir, timeout=900,
                                logfile=os.path.join(logdir, f"verus-{name}.log"))
     js = None
+    m = re.search(r"^\{\s*$", out, re.M)
+    if m:
+        try:
+            js = json.loads(out[m.start():out.rindex("}") + 1])
+        except Exception:
+            js = None
+    vr = (js or {}).get("verification-results", {})
+    verified, errors = vr.get("verified", 0) or 0, vr.get("errors", 0) or 0
+    smt_ms = ((js or {}).get("times-ms", {}).get("smt", {}) or {}).get("total")
+    failed_fns = []
     try:
-        js = json.loads(out[out.index("{"):out.rindex("}") + 1])
+        for mod in js["times-ms"]["smt"]["smt-run-module-times"]:
+            for fb in mod.get("function-breakdown", []):
+                if fb.get("success") is False:
+                    failed_fns.append(fb["function"])
     except Exception:
         pass
-    vr = (js or {}).get("verification-results", {})
-    verified, errors = vr.get("verified", 0), vr.get("errors", 0)
-    smt_ms = ((js or {}).get("times-ms", {}).get("smt", {}) or {}).get("total")
     res = {"name": name, "verified": verified, "errors": errors, "wall_s": wall, "smt_ms": smt_ms,
-           "rewrites": notes, "generated": gen, "output_tail": out[-4000:]}
-    if js is None or not vr.get("encountered-vir-error") is False and verified == 0 and errors == 0:
+           "rewrites": notes, "generated": gen, "output_tail": out[:3000], "failed_fns": failed_fns}
+    if js is None:
         res["verdict"] = "undecided"
-        res["detail"] = "verus produced no verification result (syntax/mode error or unsupported construct)"
-    elif vr.get("encountered-vir-error"):
+        res["detail"] = "verus produced no JSON result (crash / timeout)"
+    elif vr.get("encountered-vir-error") or (vr.get("encountered-error") and errors == 0):
         res["verdict"] = "undecided"
-        res["detail"] = "verus rejected the extracted code (outside its subset / type error)"
+        res["detail"] = "verus rejected the extracted code (outside its subset / type error): " + \
+            "; ".join(re.findall(r"^error[^\n]*", out, re.M)[:3])
     elif errors > 0:
         res["verdict"] = "failed"
-        fails = re.findall(r'"message":"([^"]*)"', out)
-        res["detail"] = "; ".join(fails[:5]) or "verification errors"
+        res["detail"] = "failed: " + ", ".join(failed_fns) + " :: " + "; ".join(re.findall(r"^error[^\n]*", out, re.M)[:5])
     elif verified == 0:
         res["verdict"] = "undecided"
         res["detail"] = "zero obligations verified (vacuity guard)"
@@ -838,6 +848,25 @@ def selftest(ids):
     return 0 if ok else 1
 
 
+def setup():
+    """Warm the shared Kani target dir (dependencies only change with Cargo.lock) and Verus' start-up
+    cache.  Never fails the setup: the checks rebuild whatever is missing."""
+    try:
+        scratch = make_scratch("setup")
+        target = os.path.join(CACHE, "kani-target")
+        os.makedirs(target, exist_ok=True)
+        cmd = ["cargo", "kani", "-p", "serde_avro_fast", "-Z", "unstable-options", "--only-codegen",
+               "--target-dir", target]
+        rc, out, wall, _ = run_cmd(cmd, scratch, timeout=1200)
+        log(f"[setup] kani dependency build rc={rc} in {wall:.0f}s")
+        shutil.rmtree(scratch, ignore_errors=True)
+        rc, out, wall, _ = run_cmd(["verus", "--version"], VERIF, timeout=120)
+        log(f"[setup] verus: {out.strip().splitlines()[0] if out.strip() else rc}")
+    except Exception as e:  # noqa
+        log(f"[setup] warm-up skipped: {e}")
+    return 0
+
+
 def main():
     ap = argparse.ArgumentParser()
     ap.add_argument("ids", nargs="*")
@@ -846,7 +875,10 @@ def main():
     ap.add_argument("--keep", action="store_true")
     ap.add_argument("--selftest", action="store_true")
     ap.add_argument("--record-baseline", action="store_true")
+    ap.add_argument("--setup", action="store_true")
     a = ap.parse_args()
+    if a.setup:
+        sys.exit(setup())
     if a.selftest:
         sys.exit(selftest(a.ids))
     if not a.ids:
